@@ -1,5 +1,5 @@
 """C17 - SSC to SM conversion applies the caller's policy to every SSC-only property (structural clauses)."""
-from ..rules import convert, fwd, records
+from ..rules import convert, fwd, records, baseline
 
 EXPLANATION = (
     "Static rule checking of ssc_to_sm: R-EXC the may-raise set - explicit raises in the resolved call tree must be within "
@@ -34,9 +34,13 @@ def c5(ctx):
     convert.ssc_target_tables(ctx, 'ssc_to_sm')
 
 
+def c_api(ctx):
+    baseline.surface(ctx, "C17: documented surface", modules=['simfile.convert'], keys=['simfile.ssc.SSCSimfile', 'simfile.ssc.SSCChart', 'simfile.sm.SMSimfile'])
+
 CLAUSES = [
     ("C17.1", "may-raise set of ssc_to_sm (R-EXC)", c1),
     ("C17.2-4", "table completeness; defaults agree with the blank templates (R-TABLE)", c2),
     ("C17.3", "behaviour dispatch total with the documented outcomes; policy forwarded", c3),
     ("C17.5", "purity, chart order, warps check first", c5),
+    ("C17.api", "public surface: signatures and defaults, constants, enumerations, blank templates, base classes as confirmed (R-API)", c_api),
 ]
